@@ -329,3 +329,12 @@ const_params!(p_c2_k1_b16, 2, 1, 16);
 const_params!(p_c8_k1_b1, 8, 1, 1);
 const_params!(p_c3_k4_b4, 3, 4, 4);
 const_params!(p_c3_k1_b8, 3, 1, 8);
+
+// @ob id=hex_digit_table tier=quick timeout=300 bound="hex_digit_value on every byte: 0-9, A-F, a-f map to 0..=15, everything else is rejected"
+fn hex_digit_table<const KF: usize>() {
+    let c: u8 = kani::any();
+    let want = if c >= b'0' && c <= b'9' { Some(c - b'0') } else if c >= b'A' && c <= b'F' { Some(c - b'A' + 10) } else if c >= b'a' && c <= b'f' { Some(c - b'a' + 10) } else { None };
+    assert!(hex_digit_value(c) == want, "hex digit value differs from ISO 32000-1 7.4.2");
+    kani::cover!(c == b'f', "lower-case digit reached");
+    kani::cover!(true, "end reached");
+}
